@@ -136,7 +136,12 @@ def make_hooks(rec):
             return K(None)
         ext = interp.ext_name(fname, frame)
         if ext in ("numpy.all", "numpy.any") and args:
-            # scenario: the window holds observations (no missing value decides a branch)
+            # scenario: the window holds observations (no missing value decides a branch); with rec.partial_nan the window has
+            # some, but not only, missing values and observed end points
+            a0 = args[0]
+            whole = isinstance(a0, Opq) and a0.tag == "numpy.isnan" and a0.args and isinstance(a0.args[0], Nd)
+            if getattr(rec, "partial_nan", False) and whole and ext == "numpy.any":
+                return K(True)
             return K(False)
         if ext in ("numpy.isnan", "numpy.isinf"):
             return Opq(ext, args)
@@ -486,6 +491,19 @@ def rule_naive_predict(ctx, repo, runs):
         sc = run.sc
         if run.facts is None:
             continue
+        # missing values: a window with some (not only) missing values is still forecast from its observed values
+        run.rec.partial_nan = True
+        try:
+            tr_nan = run.predict(repo)
+        finally:
+            run.rec.partial_nan = False
+        locn = ctx.loc(run.pred_cls.module, run.pred_fn)
+        nan_rets = [o[1] for s_, o in tr_nan if o[0] == "return" and isinstance(o[1], Opq) and o[1].tag.endswith("_predict_nan")]
+        other = [o for s_, o in tr_nan if o[0] == "return" and not (isinstance(o[1], Opq) and o[1].tag.endswith("_predict_nan"))]
+        ctx.check(False if nan_rets else (True if other else None), "R2", tag + ":partially-missing-window",
+                  "a window with some missing values is forecast from its observed values (no all-NaN shortcut)",
+                  "a single missing value in the last window makes _predict_last_window return the all-NaN forecast", locn,
+                  witness={"window": "[8, nan, 13, 10]", "returned": "nan for every step"})
         traces = run.predict(repo)
         loc = ctx.loc(run.pred_cls.module, run.pred_fn)
         rets = [(s, o[1]) for s, o in traces if o[0] == "return"]
@@ -1028,7 +1046,10 @@ def rule_moving_cutoff(ctx, repo):
         if simple == "_update_predict_single" and isinstance(call.func, ast.Attribute):
             tgt = interp.repo.lookup_method(cls, "_update_predict_single")[1]
             b = astq.bind_call(tgt, call, skip_self=True) or {}
-            seen2.append({p: interp.ev(e, st, frame) for p, e in b.items() if isinstance(e, ast.AST)})
+            vals_ = {p: interp.ev(e, st, frame) for p, e in b.items() if isinstance(e, ast.AST)}
+            recv_ = interp.ev(call.func.value, st, frame)
+            vals_["@cutoff"] = st.heap.get((id(recv_), "_cutoff"), getattr(recv_, "attrs", {}).get("_cutoff")) if hasattr(st, "heap") else None
+            seen2.append(vals_)
             return Opq("forecast")
         if simple == "_format_moving_cutoff_predictions":
             return Opq("formatted")
@@ -1045,6 +1066,12 @@ def rule_moving_cutoff(ctx, repo):
         return
     a = seen2[0]
     yb = a.get("y")
+    c0 = as_lin_val(a.get("@cutoff"))
+    if c0 is None:
+        ctx.undecided("R4", tag2 + ":initial-cutoff", "cutoff before the first update is %r" % (a.get("@cutoff"),), loc2)
+    else:
+        eq_lin(ctx, "R4", tag2 + ":initial-cutoff", loc2, c0, ypar.first - 1, Facts(), [],
+               "cutoff before the first update (the time point before the data: an empty first window must predict the first time point)")
 
     def is_train_part(v):
         # y.iloc[ <component 0 of an element of cv.split(y)> ]
@@ -1699,6 +1726,29 @@ def rule_theta_pipeline(ctx, repo):
                   witness={"deseasonalize": flag, "returned": repr(rets)})
 
 
+def check_last_window_at_cutoff(ctx, repo):
+    """R4 (dependency): in-sample predictions move the cutoff inside the stored series; the window the naive forecaster reads
+    must end at that cutoff.  Decided by C05's rule for _get_last_window, evaluated here and reported under this property."""
+    from . import c05
+    from ..report import Ctx
+    sub_ = Ctx("C05", repo, ctx.tier)
+    try:
+        c05.rule_last_window(sub_, repo)
+    except AnalysisError as e:
+        ctx.undecided("R4", "_get_last_window", "C05-R3 could not be evaluated: %s" % e, None)
+        return
+    for r in sub_.results:
+        if "[X=given]" in r["construct"]:
+            continue  # the naive forecaster ignores exogenous data
+        c = "in-sample:" + r["construct"]
+        if r["verdict"] == "HOLDS":
+            ctx.ok("R4", c, r["detail"], r["loc"])
+        elif r["verdict"] == "VIOLATION":
+            ctx.violation("R4", c, "with the cutoff moved back for an in-sample prediction: " + str(r["detail"]), r["loc"], r.get("witness"))
+        else:
+            ctx.undecided("R4", c, r["detail"], r["loc"])
+
+
 def check_theta_alignment(ctx, repo):
     """R6 (dependency of ThetaForecaster): the forecasts are re-seasonalised by Deseasonalizer._align_seasonal; its alignment
     formula is decided by C13-R4 -- that rule is evaluated here and reported under this property."""
@@ -1740,6 +1790,7 @@ def run(ctx):
     rule_naive_predict(ctx, repo, runs)
     rule_in_sample(ctx, repo)
     rule_moving_cutoff(ctx, repo)
+    check_last_window_at_cutoff(ctx, repo)
     rule_time_axis(ctx, repo)
     rule_forwarding(ctx, repo)
     rule_theta_pipeline(ctx, repo)
